@@ -69,6 +69,10 @@ CHECKS = {
          "For each of 9 base types (5 built-in scalars, custom scalar, enum, a nested / recursive input object with keyword and mixed-case member names, an @oneOf input with scalar / list / enum / object / awkwardly named members) an operation declares a variable of every type expression up to list depth 2 (3); assignments are the baseline, every single-position alternative (None at each nullable member at two nesting levels, list lengths 0/1/3, each @oneOf member, enum values, scalar samples) and all-None. The serialised variables must equal the specification's wire form exactly - key sets, explicit nulls without skip_serializing_none, omissions with it - under both normalizations and both schema formats.",
          "Trusted: TLC, projection, rustc + serde. Nested objects are cut by Fuel (2 / 3 levels).",
          "DESIGN.md §5 C04", "model_checking"),
+ "C09": ("TLA+ lattice of wire-neutral options (Options.tla) enumerated by TLC; metamorphic replay: programs and payload vectors from the ProgGen / Exec models compiled under each option set, every observation (verdict, re-serialised JSON, serialised request body) compared with the default option set",
+         "TLC enumerates the 192 combinations of normalization, response / variables derive lists, module visibility, custom-scalars module, extern enums and serde path; a covering sample of programs (with non-UpperCamelCase type and operation names, and variables of enum / custom scalar / input types) is generated and compiled under the default, every single change and seeded combinations. For every conforming and corrupted payload of the execution oracle and five variable assignments (two invalid) the observation through JSON must be identical to the default's; so must be whether code is generated and compiles.",
+         "Trusted: TLC, projection, rustc + serde; externally defined enums are supplied by the consumer with the reference open-world behaviour.",
+         "DESIGN.md §5 C09", "model_checking"),
 }
 
 
